@@ -8,7 +8,7 @@ checks, na = [], []
 for p in props:
     pid = p["id"]
     try:
-        m = importlib.import_module("props." + pid.lower())
+        m = importlib.import_module("props." + pid.lower())  # main module carries LEVEL_TEXT / LEVEL_NOTE
     except ModuleNotFoundError:
         na.append({"property_id": pid, "reason": "check not built yet in this round (see DESIGN.md section 4 for the plan)"}); continue
     if getattr(m, "NOT_APPLICABLE", None):
